@@ -793,7 +793,10 @@ impl CompilerContext<'_> {
                 .map_err(|e| emitter.emit(e))
         }).collect_with_recovery::<()>()?;
 
-        mapfile.enums.iter().map(|(enum_name, enum_pairs)| {
+        // (in a fixed order: `enums` is a hash map, and the order of definition reaches the output)
+        let mut enums = mapfile.enums.iter().collect::<Vec<_>>();
+        enums.sort_by(|a, b| a.0.value.cmp(&b.0.value));
+        enums.into_iter().map(|(enum_name, enum_pairs)| {
             self.declare_enum(enum_name.clone(), ScalarType::Int).map_err(|e| self.emitter.emit(e))?;
             for &(value, ref const_name) in enum_pairs {
                 let value = sp!(const_name.span => value.into()); // FIXME remind me why the indices don't have spans again?
@@ -1154,7 +1157,7 @@ impl Defs {
 
         self.enums.keys()
             .map(|candidate| (candidate, strsim::osa_distance(input.as_str(), candidate.as_str())))
-            .min_by_key(|&(_, distance)| distance)
+            .min_by(|a, b| a.1.cmp(&b.1).then_with(|| a.0.cmp(b.0)))  // (ties broken by name, not by hash order)
             .filter(|&(_, distance)| distance <= max_distance)
             .map(|(candidate, _)| candidate.clone())
     }
